@@ -54,6 +54,32 @@ def families(tier, rng):
     return fam
 
 
+def lookers():
+    """One session's MLST / MLSD / LIST is held in its j-th backend call while another session (another user, another file of another
+    size) does a complete one; then the first goes on.  What each is told must be about its own file."""
+    login = {1: [["connect", 1], ["send", 1, "USER u1"], ["send", 1, "PASS pw1"]], 2: [["connect", 2], ["send", 2, "USER u2"]],
+             3: [["connect", 3], ["send", 3, "USER anonymous"]]}
+    target = {1: "f", 2: "f", 3: "pub"}
+    def look(s, kind):
+        if kind == "mlst":
+            return [["send", s, "MLST " + target[s]]]
+        if kind == "mlstd":
+            return [["send", s, "MLST ."]]
+        return [["send", s, "EPSV"], ["dconnect", s], ["send", s, kind.upper()], ["deof", s]]
+    out = []
+    for a, b in ((1, 2), (2, 1), (1, 3), (3, 2)):
+        for ka in ("mlst", "mlsd", "list", "mlstd"):
+            for kb in ("mlst", "mlsd", "list"):
+                for j in range(1, 9):
+                    la = look(a, ka)
+                    st = login[a] + login[b] + la[:-1] + [["gate", a, None, j]] + la[-1:]
+                    if ka in ("mlsd", "list"):   # (the transfer command is the one before the end-of-file step)
+                        st = login[a] + login[b] + la[:2] + [["gate", a, None, j], la[2]]
+                    st += look(b, kb) + [["release", a]] + (la[3:] if ka in ("mlsd", "list") else []) + [["send", a, "PWD"], ["send", b, "PWD"]]
+                    out.append(st)
+    return out
+
+
 def dev_cfg(pool):
     return gen.std_cfg(ns=3)
 
@@ -88,10 +114,15 @@ def run(tier, seed):
             diffs += 1
             chk.violation({"at": "solo-differential-replies", "session": s}, {"interleaved": a[0], "solo": b[0]},
                           {"cfg": cfg, "tree": gen.STD_TREE, "schedule": fam[i][1][2], "solo": fam[i][1][0][s]})
+    lk = lookers()
+    corecheck.validate(chk, cfg, gen.STD_TREE, lk, label="lookers")
+    if tier != "quick":
+        corecheck.validate(chk, gen.std_cfg(ns=3, backend="async"), gen.STD_TREE, lk, label="lookers:async")
     chk.cov["rule"] = ("2-3 scripted sessions of different users on disjoint subtrees, seeded interleavings of their steps with "
                        "backend calls of one session held while the others run, one session possibly vanishing mid-way; every "
                        "interleaved execution must be a behaviour of the multi-session specification, and each session's reply "
-                       "codes and received data must equal those of its solo run; distinct = distinct interleavings")
+                       "codes and received data must equal those of its solo run; a session's MLST/MLSD/LIST held in its j-th backend call "
+                       "while another session looks at its own file; distinct = distinct interleavings")
     chk.cov["distinct_nontrivial"] = len({repr(s) for s in scheds})
     chk.notes["solo_differential_pairs"] = len(index)
     chk.sample(scheds[0])
